@@ -195,9 +195,12 @@ func firstLines(s string, n int) string {
 
 type seedMeta struct {
 	Property string   `json:"property"`
-	Kind     string   `json:"kind"` // "breaking" | "silent"
+	Kind     string   `json:"kind"` // "breaking" | "silent" | "refactor"
 	Fires    []string `json:"expected_to_fire"`
 	What     string   `json:"what"`
+	// refactor: behaviour-preserving change written by a sub-agent; the properties listed here are known to report it
+	// (an idiom the rules do not recognise yet) — recorded imprecision, not an expectation
+	KnownFalseAlarms []string `json:"known_false_alarms"`
 }
 
 func thoroughSelfTest(id string, rep *core.Report, repo, vdir string) {
@@ -209,6 +212,7 @@ func thoroughSelfTest(id string, rep *core.Report, repo, vdir string) {
 		return
 	}
 	ran, missed, falseAlarm, skipped := 0, []string{}, []string{}, []string{}
+	knownImprecise, nowSilent := []string{}, []string{}
 	for _, d := range dirs {
 		b, err := os.ReadFile(filepath.Join(d, "meta.json"))
 		if err != nil {
@@ -259,6 +263,21 @@ func thoroughSelfTest(id string, rep *core.Report, repo, vdir string) {
 			ran--
 		case strings.HasPrefix(verdict, "copy failed"), strings.HasPrefix(verdict, "broken"):
 			rep.Broken = append(rep.Broken, "self-test "+name+": "+verdict)
+		case m.Kind == "refactor":
+			known := false
+			for _, k := range m.KnownFalseAlarms {
+				if k == id {
+					known = true
+				}
+			}
+			switch {
+			case verdict == "fired" && known:
+				knownImprecise = append(knownImprecise, name)
+			case verdict == "fired":
+				falseAlarm = append(falseAlarm, name)
+			case known:
+				nowSilent = append(nowSilent, name)
+			}
 		case m.Kind == "silent" && verdict == "fired":
 			falseAlarm = append(falseAlarm, name)
 		case m.Kind != "silent" && verdict == "silent":
@@ -269,6 +288,8 @@ func thoroughSelfTest(id string, rep *core.Report, repo, vdir string) {
 	rep.Extra["selftest_skipped_not_applicable"] = skipped
 	rep.Extra["selftest_missed"] = missed
 	rep.Extra["selftest_false_alarm"] = falseAlarm
+	rep.Extra["selftest_refactorings_still_reported"] = knownImprecise
+	rep.Extra["selftest_refactorings_silent_but_listed"] = nowSilent
 	if len(missed) > 0 {
 		rep.Broken = append(rep.Broken, "checker self-test: seeded breaking change(s) not detected by "+id+": "+strings.Join(missed, ", "))
 	}
